@@ -414,7 +414,7 @@ impl<'w> Ctx<'w> {
                 let a = self.expr(&c.args[0])?;
                 let b = self.expr(&c.args[1])?;
                 let ty = self.unify(&a.ty, &b.ty)?;
-                let f = if name.ends_with("max") { "Nat.max" } else { "Nat.min" };
+                let f = if name.ends_with("max") { "max" } else { "min" };
                 Ok(E { s: format!("({} {} {})", f, a.s, b.s), ty, eff: a.eff || b.eff })
             }
             "mem::size_of" | "size_of" | "std::mem::size_of" => {
@@ -610,7 +610,7 @@ impl<'w> Ctx<'w> {
             (Ty::U(_) | Ty::IntVar(_), "min" | "max") => {
                 let a = self.expr(args[0])?;
                 let ty = self.unify(&recv.ty, &a.ty)?;
-                let f = if name == "min" { "Nat.min" } else { "Nat.max" };
+                let f = if name == "min" { "min" } else { "max" };
                 Ok(E { s: format!("({} {} {})", f, recv.s, a.s), ty, eff: eff || a.eff })
             }
             (Ty::U(w), "checked_add") => {
